@@ -38,7 +38,7 @@ type Call struct {
 }
 
 var callNames = []string{"m.String", "m.WriteTo", "f.LLString", "b.LLString", "inst.LLString", "v.String", "v.Ident", "v.Type", "g.LLString", "f.String+Ident+Type", "term.LLString",
-	"metadata def Ident+LLString", "alias/ifunc LLString", "typedef String+LLString", "operands String", "param LLString", "named metadata LLString"}
+	"metadata def Ident+LLString", "alias/ifunc LLString", "typedef String+LLString", "operands String", "param LLString", "named metadata LLString", "m.WriteTo(plain io.Writer)"}
 
 func (c Call) String() string {
 	return fmt.Sprintf("%s(%d,%d,%d)", callNames[c.K%len(callNames)], c.A, c.B, c.C)
@@ -150,6 +150,12 @@ func doCall(m *ir.Module, c Call) (string, bool) {
 		if f := fn(); f != nil && len(f.Params) > 0 {
 			return f.Params[c.B%len(f.Params)].LLString(), true
 		}
+	case 17:
+		// A writer that is nothing but an io.Writer (not *bytes.Buffer,
+		// *strings.Builder, *bufio.Writer, *os.File).
+		w := &plainWriter{}
+		n, err := m.WriteTo(w)
+		return fmt.Sprintf("n=%d err=%v\n%s", n, err, w.b.String()), true
 	case 16:
 		if len(m.NamedMetadataDefs) > 0 {
 			var names []string
@@ -163,6 +169,10 @@ func doCall(m *ir.Module, c Call) (string, bool) {
 	}
 	return "", false
 }
+
+type plainWriter struct{ b strings.Builder }
+
+func (w *plainWriter) Write(p []byte) (int, error) { return w.b.Write(p) }
 
 func applyStart(m *ir.Module, start string) {
 	switch start {
@@ -417,11 +427,11 @@ func c13Run(sc *C13Scenario) *c13Outcome {
 		for i := range sc.Tasks {
 			for j, c := range sc.Tasks[i] {
 				k := c.K % len(callNames)
-				if k != 0 && k != 1 {
+				if k != 0 && k != 1 && k != 17 {
 					continue
 				}
 				text := got[i][j]
-				if k == 1 {
+				if k != 0 {
 					if nl := strings.IndexByte(text, '\n'); nl >= 0 {
 						text = text[nl+1:]
 					}
@@ -514,7 +524,7 @@ func c13GenScenario(r *rng, srcs []*moduleSource) *C13Scenario {
 			for j := 0; j < 1+r.intn(3); j++ {
 				k := r.intn(len(callNames))
 				if r.chance(1, 2) {
-					k = r.intn(3) // module and function prints are where the locks are
+					k = []int{0, 1, 2, 17}[r.intn(4)] // module and function prints are where the locks are
 				}
 				calls = append(calls, Call{K: k, A: r.intn(64), B: r.intn(64), C: r.intn(64)})
 			}
@@ -523,9 +533,9 @@ func c13GenScenario(r *rng, srcs []*moduleSource) *C13Scenario {
 	} else {
 		// Same receiver, same calls for every task.
 		var calls []Call
-		k := []int{0, 0, 0, 1, 2, 2, 3}[r.intn(7)]
+		k := []int{0, 0, 0, 1, 17, 2, 2, 3}[r.intn(8)]
 		if sc.Start == "func-printed" {
-			k = []int{0, 0, 1}[r.intn(3)]
+			k = []int{0, 0, 1, 17}[r.intn(4)]
 		}
 		c := Call{K: k, A: r.intn(64), B: r.intn(64), C: r.intn(64)}
 		calls = append(calls, c)
@@ -534,11 +544,12 @@ func c13GenScenario(r *rng, srcs []*moduleSource) *C13Scenario {
 		}
 		for i := 0; i < nt; i++ {
 			mine := calls
-			if k <= 1 && r.chance(1, 2) {
-				// The same receiver (the module), printed through the other entry point.
+			if (k <= 1 || k == 17) && r.chance(1, 2) {
+				// The same receiver (the module), printed through another entry point.
+				alt := []int{0, 1, 17}[r.intn(3)]
 				mine = make([]Call, len(calls))
 				for j, cc := range calls {
-					cc.K = 1 - cc.K
+					cc.K = alt
 					mine[j] = cc
 				}
 			}
